@@ -3859,6 +3859,15 @@ size_t space_needed(Chunk *first, Chunk *second)
       return(max(1, min_sp));
 
    case IARF_REMOVE:
+
+      // back-to-back words need a space: 'unsigned long' must not become 'unsignedlong'
+      if (  first->Len() > 0
+         && second->Len() > 0
+         && CharTable::IsKw2(first->GetStr()[first->Len() - 1])
+         && CharTable::IsKw1(second->GetStr()[0]))
+      {
+         return(1);
+      }
       return(0);
 
    case IARF_IGNORE:
